@@ -779,6 +779,10 @@ class Engine:
                                 op = Op("look", m.idx, (t,), name, api=api)
                                 await self.op_look(op, f"{step}(final probe)", probe=True)
                                 await self.compare_views(op, f"{step}(final probe)")
+                                if self.listen:
+                                    # every event object heard so far is looked at again: a later generation elsewhere must not have touched it
+                                    await anyio.wait_all_tasks_blocked()
+                                    self.compare_events(op, f"{step}(final probe)")
                 # close everything, newest first; teardown log must equal the model's
                 for m in reversed(self.model):
                     if m.open:
